@@ -6,6 +6,85 @@ import msgcommon as mc
 
 SPEC_OPS = {'parts', 'body'}
 
+# ---- spellings of Content-Type / Content-Transfer-Encoding (RFC 2045 5.1, 6.1) ----
+# Type, subtype, parameter names and encoding names are case-insensitive; a parameter value is a token or a quoted-string; the
+# boundary parameter may stand anywhere in the parameter list; blanks may surround a `;`.
+CASES = [lambda s: s, lambda s: s.upper(), lambda s: s.capitalize(), lambda s: b''.join(bytes([c]).upper() if i % 2 else bytes([c]) for i, c in enumerate(s))]
+OTHER_PARAMS = [b'charset=utf-8', b'protocol="application/pgp-signature"', b'type="text/html"', b'micalg=pgp-sha256', b'x="a;b"', b'Report-Type=delivery-status']
+CTES = [b'base64', b'quoted-printable', b'7bit', b'8bit', b'binary']
+
+
+def spelling_message(rng):
+    """-> (message, tags): a two-level multipart whose header spellings vary.  tags: 'token' (boundary written as a token),
+    'notfirst' (another parameter precedes it): the two forms of finding F30; every other variation must make no difference."""
+    cs = lambda s: rng.choice(CASES)(s)
+    bnd = rng.choice([b'b1', b'frontier', b'----=_Part_12_345.678', b'a.b_c-d', b'0123456789'])
+    tags = set()
+    quoted = rng.random() < 0.7
+    if not quoted and any(c in b'()<>@,;:\\"/[]?= ' for c in bnd):
+        quoted = True               # such a boundary has no token form
+    if not quoted:
+        tags.add('token')
+    before = rng.sample(OTHER_PARAMS, rng.choice([0, 0, 0, 1, 2]))
+    after = rng.sample(OTHER_PARAMS, rng.choice([0, 0, 1, 2]))
+    if before:
+        tags.add('notfirst')
+    val = (b'"' + bnd + b'"') if quoted else bnd
+    params = before + [cs(b'boundary') + b'=' + val] + after
+    sub = rng.choice([b'mixed', b'alternative', b'signed', b'related', b'report'])
+    ct = cs(b'multipart') + b'/' + cs(sub)
+    for prm in params:
+        ct += rng.choice([b'', b' ', b'\t']) + b';' + rng.choice([b'', b' ', b'  ', b'\t']) + prm
+    parts = []
+    for i in range(rng.choice([1, 2, 2, 3])):
+        enc = rng.choice(CTES)
+        text = b'part %d caf\xc3\xa9 = done' % i
+        if enc == b'base64':
+            import base64
+            body = base64.b64encode(text) + b'\n'
+        elif enc == b'quoted-printable':
+            body = text.replace(b'=', b'=3D').replace(b'\xc3', b'=C3').replace(b'\xa9', b'=A9') + b'\n'
+        else:
+            body = text + b'\n'
+        ptype = rng.choice([b'text/plain', b'text/html', b'application/octet-stream'])
+        pct = cs(ptype.split(b'/')[0]) + b'/' + cs(ptype.split(b'/')[1]) + rng.choice([b'', b'; charset=utf-8', b';charset="utf-8"'])
+        hdrs = [cs(b'Content-Type') + b': ' + pct, cs(b'Content-Transfer-Encoding') + b': ' + cs(enc)]
+        rng.shuffle(hdrs)
+        parts.append(b'\n'.join(hdrs) + b'\n\n' + body)
+    body = b'preamble\n' + b''.join(b'--' + bnd + b'\n' + p for p in parts) + b'--' + bnd + b'--\nepilogue\n'
+    m = b'To: a@example.com\nMIME-Version: 1.0\n' + cs(b'Content-Type') + b': ' + ct + b'\nSubject: s\n\n' + body
+    return m, tags
+
+
+def spelling_stage(rep, rng, h, env, n):
+    """Judge the implementation by the RFC 2045 reading (`S partsrfc`: Spec.partsRFC, boundary parameter in any position, token
+    or quoted-string, names case-insensitive).  A deviation on a message whose only departure from `multipart/x; boundary="b"` is
+    the F30 form is the listed finding `boundary-parameter-form`; any other deviation is unlisted."""
+    fam = [spelling_message(rng) for _ in range(n)]
+    lines = ['parts ' + vlib.hexs(m) for m, _ in fam]
+    impl = vlib.run_batch([h], lines, env)
+    rfc = vlib.run_batch([vlib.driver_path()], ['S partsrfc ' + vlib.hexs(m) for m, _ in fam])
+    ndev = {}
+    for (m, tags), line, im, sp in zip(fam, lines, impl, rfc):
+        if im.startswith('FAULT'):
+            rep.finding('sanitizer-fault', {'stage': 'ctype-spelling', 'request': line, 'implementation': im})
+            continue
+        if im == sp:
+            continue
+        cls = 'boundary-parameter-form' if (tags & {'token', 'notfirst'}) and im == 'P0' else 'unlisted'
+        ndev[cls] = ndev.get(cls, 0) + 1
+        if cls in rep.known and cls in rep.known_hits:
+            rep.known_hits[cls][0] += 1          # one example of a listed class is enough
+            continue
+        if ndev[cls] <= 5:
+            rep.finding(cls, {'stage': 'ctype-spelling', 'request': line, 'request_readable': [repr(m)], 'form': sorted(tags),
+                              'implementation': im, 'rfc_2045_reading': sp,
+                              'what': 'the parts message_get_attachments delivers differ from the parts of the MIME tree read per RFC 2045 '
+                                      '(boundary parameter: any position, token or quoted-string, names case-insensitive)',
+                              'replay_cmd': 'python3 tools/check.py C11 --replay <this file>'})
+    return fam, {'messages': n, 'f30_forms': sum(1 for _, t in fam if t), 'deviations': ndev,
+                 'agreeing_f30_free': sum(1 for (_, t), i, s in zip(fam, impl, rfc) if not t and i == s and i.startswith('P') and i != 'P0')}
+
 
 def run(rep):
     rng = random.Random(rep.seed)
@@ -18,6 +97,8 @@ def run(rep):
     n = 5000 if rep.tier == 'quick' else 150000
     msgs = mc.messages(rng, n, mime_share=0.85, mutate_share=0.2)
     reqs = mc.corpus('C11')
+    fam, spell_cov = spelling_stage(rep, rng, h, env, 1500 if rep.tier == 'quick' else 40000)
+    msgs += [m for m, _ in fam]
     for m in msgs:
         reqs.append(('parts', m))
         reqs.append(('body', m))
@@ -110,6 +191,7 @@ def run(rep):
         'correspondence_mismatches': len(d.corr_mismatch),
         'spec_failures': len(d.spec_fail),
         'sanitizer_faults': len(d.faults),
+        'content_type_spellings_judged_by_rfc2045': spell_cov,
         'exec_stdin_body_under_write_faults': fault_cov,
         'exec_stdin_body_across_action_sequences': seq_cov,
     })
@@ -128,4 +210,6 @@ def replay(rep, path):
         (execbody if j['stage'] == 'execbody' else execseq).replay(proc.Tools(sc), j)
         rep.coverage.update({'evaluations': 1, 'distinct_nontrivial': 1})
         return
+    if j.get('stage') == 'ctype-spelling':
+        print('rfc 2045 reading %s' % vlib.run_batch([vlib.driver_path()], ['S partsrfc ' + j['request'].split(' ')[1]])[0])
     mc.generic_replay(rep, path, 'C11', SPEC_OPS, {})
